@@ -45,9 +45,10 @@ TStat == /\ At("Stat") /\ Step /\ RespOK(Ev.j) /\ Ev.j \notin seenStat
 TRecover == At("Recover") /\ Step /\ Same /\ RespOK(Ev.j) /\ Ev.err <= Bound(kappa, amp)
 TPred == At("Pred") /\ Step /\ Same /\ Ev.shape = 1 /\ Ev.err <= TolAlg
 TNewStat == At("NewStat") /\ Step /\ Same /\ RespOK(Ev.j) /\ Ev.r2gap <= TolAlg /\ Ev.rmsegap <= TolAlg
-\* paired runs; the second model has its own condition number (logged), both inside the quantifier
+\* paired runs; the second model has its own condition number (logged), both inside the quantifier; a change of units of the
+\* predictors (xscale, 1e-8..1e8) or of the responses (affine, 1e-8..1e8) keeps the condition number of the equilibrated problem
 TPair == /\ At("Pair") /\ Step /\ Same
-         /\ Ev.kind \in {"affine", "remix"} /\ Ev.kappa2 \in 1..10000 /\ Ev.amp2 >= 1
+         /\ Ev.kind \in {"affine", "remix", "xscale"} /\ Ev.kappa2 \in 1..10000 /\ Ev.amp2 >= 1
          /\ Ev.err <= Bound(IF Ev.kappa2 > kappa THEN Ev.kappa2 ELSE kappa, Ev.amp2)
 TReuse == At("Reuse") /\ Step /\ Same /\ Ev.shape = 1 /\ Ev.err <= TolAlg
 \* tiny integer case: b4 = coefficients reported by the library in units of 1e-4; exact coefficients recomputed here
